@@ -246,3 +246,22 @@ Theorem C02_pointer_inv : forall c init ops,
   1 <= c_max c -> Forall2 PRel (prun_heap c init ops) (run_heap c init ops).
 Proof. exact prun_heap_rel. Qed.
 Print Assumptions C02_pointer_inv.
+
+(* c_i.update(c_j), i <> j, run over the source's keys: it succeeds; the source
+   keeps its contents and gets one hit per item (it is read through c_j[k]); no
+   other counter of either cache moves; both caches stay well formed *)
+Theorem C02_update_from : forall c ks mi mj,
+  1 <= c_max c -> Inv c mi -> Inv c mj -> Forall (fun k => In k (keys (ring mj))) ks ->
+  exists mi' mj', upd_from c mi mj ks = (mi', mj', Ok tt) /\ Inv c mi' /\ Inv c mj'
+    /\ map_eq (store mj') (store mj)
+    /\ hit mj' = (hit mj + N.of_nat (length ks))%N /\ miss mj' = miss mj /\ soft mj' = soft mj
+    /\ hit mi' = hit mi /\ miss mi' = miss mi /\ soft mi' = soft mi.
+Proof. exact upd_from_effect. Qed.
+Print Assumptions C02_update_from.
+
+Example C02_update_from_inhabited :
+  let c := mkCfg LRU 3 None in
+  let h := run_heap c [] [On 0 (SetItem 1 10); On 0 (SetItem 2 20); On 0 (GetItem 1); Copy 0;
+                          On 1 (SetItem 3 30); UpdateFrom 1 0] in
+  map ring h = [[(1, 10); (2, 20)]; [(3, 30); (1, 10); (2, 20)]] /\ map hit h = [3%N; 0%N].
+Proof. vm_compute. split; reflexivity. Qed.
